@@ -155,7 +155,7 @@ struct Script
                 // out-of-range codes, also ones whose low bits look like a legal state (11, 0x103 ~ Running;
                 // 0x102 ~ Armed; 8 ~ Closed; -1)
                 static const int odd[8] = { DeviceState_AwaitingConfiguration, DeviceStateCount, 11, 0x103, 0x102, 8, -1, DeviceState_AwaitingConfiguration };
-                return (DeviceState)odd[(bits >> 15) & 7];
+                return (DeviceState)odd[((bits >> 5) ^ (bits >> 10) ^ (unsigned)used) & 7]; // (bits has 16 bits)
             }
             default: return want;
         }
